@@ -9,8 +9,7 @@ import StoneVerif.Model.FeNames
       | `{"null":true}` | `{"ty":T}` (nested built-in reference) | `{"user":bool}` (a resolved user type / alias; the
         flag is `isinstance(·, String)`, false for both)
   reply `{"out":"ok","ty":D,"nullable":b}` | `{"out":"spec","reason":r}` | `{"out":"crash","exc":e}`,
-  plus for the outermost reference `"legal"` (legalRef), `"hole"` (hitsHole), `"holes"` (the two hole predicates in
-  the order falsy-pattern, far-side).
+  plus for the outermost reference `"legal"` (legalRef).
   Nested references are resolved first, left to right, positional before keyword (`_resolve_args`); the glue below
   only sequences the calls of `resolveBuiltin`.
 
@@ -160,10 +159,8 @@ def handleParams (j : Json) : Except String Json := do
   let some k := TyKind.ofName? kname | throw s!"unknown kind {kname}"
   let nullable ← jbool tj "nullable"
   let extra ← match ← shallowArgs rx tj with
-    | some (pos, kw) => pure [("legal", Json.bool (legalRef rx k pos kw nullable)),
-                              ("hole", Json.bool (hitsHole k kw)),
-                              ("holes", Json.arr #[Json.bool (holeFalsyPattern k kw), Json.bool (holeFarSide k kw)])]
-    | none => pure [("legal", Json.bool false), ("hole", Json.bool false), ("holes", Json.arr #[])]
+    | some (pos, kw) => pure [("legal", Json.bool (legalRef rx k pos kw nullable))]
+    | none => pure [("legal", Json.bool false)]
   match ← resolveJson rx tj with
   | .ok r => pure (ok ([("out", Json.str "ok"), ("ty", r.dump), ("nullable", Json.bool r.nullable)] ++ extra))
   | .error (.specerr r) => pure (ok ([("out", Json.str "spec"), ("reason", Json.str (reasonStr r))] ++ extra))
